@@ -148,6 +148,77 @@ Qed.
 Lemma raw_of_same_raws st st1 : raws st1 = raws st -> forall t k, raw_of st1 t k = raw_of st t k.
 Proof. intros H t k. rewrite !raw_of_raws, H. reflexivity. Qed.
 
+(* frames compose *)
+Definition Frame (st st1 : state) (dirty : list (nat * nat)) : Prop :=
+  prv_last st1 = prv_last st /\
+  forall t k, is_dirty dirty t k = false -> raw_of st1 t k = raw_of st t k.
+
+Lemma is_dirty_app d1 d2 t k : is_dirty (d1 ++ d2) t k = is_dirty d1 t k || is_dirty d2 t k.
+Proof. unfold is_dirty. apply existsb_app. Qed.
+
+Lemma Frame_refl st : Frame st st [].
+Proof. split; [reflexivity|intros; reflexivity]. Qed.
+
+Lemma Frame_trans st st1 st2 d1 d2 : Frame st st1 d1 -> Frame st1 st2 d2 -> Frame st st2 (d1 ++ d2).
+Proof.
+  intros [L1 F1] [L2 F2]. split; [congruence|].
+  intros t k H. rewrite is_dirty_app in H. apply orb_false_iff in H. destruct H as [H1 H2].
+  rewrite (F2 t k H2). apply F1. exact H1.
+Qed.
+
+Lemma Frame_raws st st1 : raws st1 = raws st -> prv_last st1 = prv_last st -> Frame st st1 [].
+Proof. intros Hr Hl. split; [exact Hl|]. intros t k _. apply raw_of_same_raws. exact Hr. Qed.
+
+Lemma raws_set_tasks st tk : raws (set_tasks st tk) = raws st. Proof. reflexivity. Qed.
+Lemma raws_set_types st ty : raws (set_types st ty) = raws st. Proof. reflexivity. Qed.
+
+Lemma set_chans_frame sx who ws : forall st d0 st1 d,
+  set_chans sx st who ws d0 = Ok (st1, d) -> exists d', d = d0 ++ d' /\ Frame st st1 d'.
+Proof.
+  induction ws as [|[k v] ws IH]; intros st d0 st1 d H; cbn [set_chans] in H.
+  - inversion H; subst. exists []. split; [rewrite app_nil_r; reflexivity|apply Frame_refl].
+  - destruct (chan_step sx st who k SET v) as [[st' d1]|] eqn:E; [|discriminate].
+    destruct (IH _ _ _ _ H) as (d' & -> & F).
+    exists (d1 ++ d'). split; [rewrite app_assoc; reflexivity|].
+    apply (Frame_trans st st' st1); [|exact F].
+    destruct (chan_step_frame _ _ _ _ _ _ _ _ E) as [Hl Hf]. split; assumption.
+Qed.
+
+Lemma task_op_frame st who th loom pid mdl kind tid bid st1 :
+  nth_error (threads st) who = Some th ->
+  task_op st who th loom pid mdl kind tid bid = Ok st1 -> raws st1 = raws st /\ prv_last st1 = prv_last st.
+Proof.
+  intros Hn H. unfold task_op in H.
+  assert (G : forall ti tk bi b th', t_raw th' = t_raw th ->
+            raws (set_thread (store_body st ti tk bi b) who th') = raws st).
+  { intros ti tk bi b th' Hr. apply (raws_set_thread (store_body st ti tk bi b) who th); [exact Hn|exact Hr]. }
+  break_in H; inversion H; subst; split; try reflexivity; try (apply G; reflexivity).
+Qed.
+
+Lemma task_event_frame sx st who cfg mdl kind tid bid st1 dirty :
+  task_event sx st who cfg mdl kind tid bid = Ok (st1, dirty) -> Frame st st1 dirty.
+Proof.
+  unfold task_event, nth_opt. intros H.
+  destruct (nth_error (threads st) who) as [th|] eqn:Hn; [|discriminate].
+  destruct (nth_error (s_threads sx) who) as [ti|]; [|discriminate].
+  destruct (find_task st (ti_loom ti) (ti_pid ti) mdl tid) as [[i0 tk0]|]; [|discriminate].
+  match type of H with match ?o with Some _ => _ | None => _ end = _ => destruct o as [b|]; [|discriminate] end.
+  destruct (task_op st who th (ti_loom ti) (ti_pid ti) mdl kind tid b) as [s1|] eqn:Eop; [|discriminate].
+  destruct (task_op_frame _ _ _ _ _ _ _ _ _ _ Hn Eop) as [Hr1 Hl1].
+  match type of H with match ?ssr with Ok _ => _ | Err _ => _ end = _ => destruct ssr as [[s2 d1]|] eqn:Ess; [|discriminate] end.
+  assert (F2 : Frame s1 s2 d1).
+  { destruct (kind =? 120); [destruct (chan_step_frame _ _ _ _ _ _ _ _ Ess); split; assumption|].
+    destruct (kind =? 101); [destruct (chan_step_frame _ _ _ _ _ _ _ _ Ess); split; assumption|].
+    inversion Ess; subst. apply Frame_refl. }
+  match type of H with match ?w with Ok _ => _ | Err _ => _ end = _ => destruct w as [ws|]; [|discriminate] end.
+  destruct (set_chans sx s2 who ws d1) as [[s3 d]|] eqn:Esc; [|discriminate].
+  destruct (set_chans_frame _ _ _ _ _ _ _ Esc) as (d' & -> & F3).
+  assert (F : Frame st s3 (d1 ++ d')).
+  { change (d1 ++ d') with ([] ++ (d1 ++ d')). apply (Frame_trans st s1 s3); [apply Frame_raws; assumption|].
+    apply (Frame_trans s1 s2 s3); assumption. }
+  break_in H; inversion H; subst; exact F.
+Qed.
+
 Lemma core_step_frame sx st who ev st1 dirty :
   core_step sx st who ev = Ok (st1, dirty) ->
   prv_last st1 = prv_last st /\
@@ -162,6 +233,22 @@ Proof.
     destruct (chan_step_frame _ _ _ _ _ _ _ _ H) as [Hl Hf]. split; [exact Hl|].
     intros t k' Hd. rewrite (Hf t k' Hd). apply raw_of_same_raws.
     apply (raws_set_thread st who th); [exact Hn|reflexivity].
+  - (* EvTask *)
+    destruct (nth_error (threads st) who) as [th|]; [|discriminate].
+    destruct (need_ok (tc_need cfg) th); [|discriminate].
+    apply (task_event_frame _ _ _ _ _ _ _ _ _ _ H).
+  - (* EvTaskCreate *)
+    destruct (nth_error (threads st) who) as [th|]; [|discriminate].
+    destruct (need_ok need th); [|discriminate].
+    destruct (task_create sx st who mdl tid typeid par res pause relax) as [s|] eqn:E; [|discriminate].
+    inversion H; subst. unfold task_create, nth_opt in E. break_in E. inversion E; subst.
+    split; [reflexivity|intros; reflexivity].
+  - (* EvTypeCreate *)
+    destruct (nth_error (threads st) who) as [th|]; [|discriminate].
+    destruct (need_ok need th); [|discriminate].
+    destruct (type_create sx st who mdl typeid gid) as [s|] eqn:E; [|discriminate].
+    inversion H; subst. unfold type_create, nth_opt in E. break_in E. inversion E; subst.
+    split; [reflexivity|intros; reflexivity].
   - destruct (nth_error (threads st) who) as [th|]; [|discriminate].
     destruct (t_ooc th); [discriminate|]. inversion H; subst. split; [reflexivity|]. intros; reflexivity.
   - discriminate.
@@ -271,10 +358,10 @@ Proof.
   intros s Hin. specialize (HI s Hin). unfold slot_inv in *. cbv zeta in *.
   set (k := key_of sx s) in *. set (f := flags_of sx s) in *.
   (* the new state differs from st1 only in prv_last: views and th_running are those of st1 *)
-  set (stn := {| threads := threads st1; cpu_threads := cpu_threads st1; cpu_touched := cpu_touched st1; prv_last := last' |}).
+  set (stn := set_last st1 last').
   assert (Hview : view sx stn s = view sx st1 s) by (destruct s; reflexivity).
   assert (Hunsel : unselected stn s <-> unselected st1 s) by (destruct s; reflexivity).
-  rewrite Hview. cbn [prv_last stn]. unfold shown. rewrite shown_from_app. fold (shown ls k).
+  rewrite Hview. change (prv_last stn) with last'. unfold shown. rewrite shown_from_app. fold (shown ls k).
   destruct HI as [HA HB].
   destruct (requested sx st st1 dirty s) eqn:Hr.
   - (* written in this event *)
